@@ -714,3 +714,252 @@ func c12r8(rc *core.RC) {
 		rc.Unknown("decoder/[]byte-destination-stores", token.NoPos, "found %d stores to a []byte destination (confirmed: 4 in bytesDecoder)", n)
 	}
 }
+
+// ---- C12.R9 the input of Compact, Indent, HTMLEscape and Valid is read-only ----
+
+// The caller's src may be a window into a larger buffer that other goroutines read, with live data behind its end.
+// The scanners need a NUL behind the text; the library gets it by copying src into a pooled buffer. Writing the NUL
+// into the array of src "for the duration of the scan" (src[:len+1], store, restore) races with every other user of
+// that array and leaves it corrupted when two calls overlap. The rule follows the parameter through local aliases
+// and into module functions (fixpoint over parameters): it must never be the base of an element store, the
+// destination of copy, the first argument of append, or re-sliced beyond its length.
+type paramKey struct {
+	fn  *types.Func
+	idx int
+}
+
+type mutationFinder struct {
+	p    *core.Program
+	memo map[paramKey]string // "" = not mutated, otherwise the reason
+	busy map[paramKey]bool
+}
+
+func (mf *mutationFinder) paramObj(fd *ast.FuncDecl, info *types.Info, idx int) types.Object {
+	k := 0
+	for _, f := range fd.Type.Params.List {
+		if len(f.Names) == 0 {
+			k++
+			continue
+		}
+		for _, nm := range f.Names {
+			if k == idx {
+				return info.Defs[nm]
+			}
+			k++
+		}
+	}
+	return nil
+}
+
+// mutated reports why the idx-th parameter (a []byte) of f may be written through, or "".
+func (mf *mutationFinder) mutated(f *types.Func, idx int) string {
+	key := paramKey{f, idx}
+	if r, ok := mf.memo[key]; ok {
+		return r
+	}
+	if mf.busy[key] {
+		return ""
+	}
+	mf.busy[key] = true
+	defer delete(mf.busy, key)
+	fd := mf.p.DeclOf(f)
+	if fd == nil || fd.Body == nil {
+		mf.memo[key] = ""
+		return ""
+	}
+	info := mf.p.Info(fd)
+	po := mf.paramObj(fd, info, idx)
+	if po == nil {
+		mf.memo[key] = ""
+		return ""
+	}
+	alias := map[types.Object]bool{po: true}
+	var isAlias func(e ast.Expr) bool
+	isAlias = func(e ast.Expr) bool {
+		switch x := core.Unparen(e).(type) {
+		case *ast.Ident:
+			return alias[core.ObjOf(info, x)]
+		case *ast.SliceExpr:
+			return isAlias(x.X)
+		}
+		return false
+	}
+	for changed := true; changed; {
+		changed = false
+		ast.Inspect(fd.Body, func(m ast.Node) bool {
+			as, ok := m.(*ast.AssignStmt)
+			if !ok || len(as.Lhs) != len(as.Rhs) {
+				return true
+			}
+			for i, l := range as.Lhs {
+				if id, isID := l.(*ast.Ident); isID && isAlias(as.Rhs[i]) {
+					if o := core.ObjOf(info, id); o != nil && !alias[o] {
+						alias[o] = true
+						changed = true
+					}
+				}
+			}
+			return true
+		})
+	}
+	reason := ""
+	note := func(pos token.Pos, format string, a ...interface{}) {
+		if reason == "" {
+			reason = fmt.Sprintf("%s (%s): ", mf.p.FuncName(fd), mf.p.Pos(pos)) + fmt.Sprintf(format, a...)
+		}
+	}
+	ast.Inspect(fd.Body, func(m ast.Node) bool {
+		switch x := m.(type) {
+		case *ast.AssignStmt:
+			for _, l := range x.Lhs {
+				if ix, ok := core.Unparen(l).(*ast.IndexExpr); ok && isAlias(ix.X) {
+					note(x.Pos(), "stores into an element of it (%s)", core.Src(mf.p.Fset, l))
+				}
+			}
+		case *ast.IncDecStmt:
+			if ix, ok := core.Unparen(x.X).(*ast.IndexExpr); ok && isAlias(ix.X) {
+				note(x.Pos(), "modifies an element of it (%s)", core.Src(mf.p.Fset, x.X))
+			}
+		case *ast.SliceExpr:
+			if !isAlias(x.X) || x.High == nil {
+				return true
+			}
+			// beyond the length: a high bound built from len(…)+k, or from cap(…)
+			ext := false
+			ast.Inspect(x.High, func(k ast.Node) bool {
+				switch h := k.(type) {
+				case *ast.CallExpr:
+					if core.IsBuiltin(info, h, "cap") {
+						ext = true
+					}
+				case *ast.BinaryExpr:
+					if h.Op == token.ADD {
+						if v, isC := core.ConstInt(info, h.Y); isC && v > 0 {
+							// len(alias)+k, or n+k with n := len(alias)
+							lenLike := false
+							ast.Inspect(h.X, func(q ast.Node) bool {
+								if c, isCall := q.(*ast.CallExpr); isCall && core.IsBuiltin(info, c, "len") && len(c.Args) == 1 && isAlias(c.Args[0]) {
+									lenLike = true
+								}
+								if id, isID := q.(*ast.Ident); isID {
+									if def := singleDef(info, fd.Body, core.ObjOf(info, id)); def != nil {
+										if c, isCall := core.Unparen(def).(*ast.CallExpr); isCall && core.IsBuiltin(info, c, "len") && len(c.Args) == 1 && isAlias(c.Args[0]) {
+											lenLike = true
+										}
+									}
+								}
+								return true
+							})
+							if lenLike {
+								ext = true
+							}
+						}
+					}
+				}
+				return true
+			})
+			if ext {
+				note(x.Pos(), "re-slices it beyond its length (%s)", core.Src(mf.p.Fset, x))
+			}
+		case *ast.CallExpr:
+			if core.IsBuiltin(info, x, "copy") && len(x.Args) == 2 && isAlias(x.Args[0]) {
+				note(x.Pos(), "copies into it (%s)", core.Src(mf.p.Fset, x))
+			}
+			if core.IsBuiltin(info, x, "append") && len(x.Args) >= 1 && isAlias(x.Args[0]) {
+				note(x.Pos(), "appends to it, which writes into its spare capacity (%s)", core.Src(mf.p.Fset, x))
+			}
+			if callee := core.Callee(info, x); callee != nil && callee.Pkg() != nil && strings.HasPrefix(callee.Pkg().Path(), core.ModPath) {
+				for i, a := range x.Args {
+					if isAlias(a) {
+						if r := mf.mutated(callee, i); r != "" {
+							note(x.Pos(), "passes it to %s", r)
+						}
+					}
+				}
+			}
+		}
+		return true
+	})
+	mf.memo[key] = reason
+	return reason
+}
+
+func c12r9(rc *core.RC) {
+	p := rc.P
+	mf := &mutationFinder{p: p, memo: map[paramKey]string{}, busy: map[paramKey]bool{}}
+	n := 0
+	for _, e := range []struct {
+		pkg, fn string
+		idx     int
+	}{{"json", "Compact", 1}, {"json", "Indent", 1}, {"json", "HTMLEscape", 1}, {"json", "Valid", 0}, {"encoder", "Compact", 1}, {"encoder", "Indent", 1}} {
+		f := p.FuncObj(e.pkg, e.fn)
+		key := fmt.Sprintf("%s.%s/input read-only", e.pkg, e.fn)
+		if f == nil {
+			rc.Unknown(key, token.NoPos, "entry point not found")
+			continue
+		}
+		fd := p.DeclOf(f)
+		if fd == nil {
+			rc.Unknown(key, token.NoPos, "declaration not found")
+			continue
+		}
+		n++
+		rc.Touch(p.FuncName(fd))
+		r := mf.mutated(f, e.idx)
+		rc.Check(r == "", key, fd.Pos(), "the caller's input is only read, on every path through the module functions it is handed to: %s", map[bool]string{true: "no element store, copy destination, append target or re-slice beyond the length", false: r}[r == ""])
+	}
+	if n < 6 {
+		rc.Unknown("json/read-only-inputs", token.NoPos, "found %d of the six entry points", n)
+	}
+}
+
+// ---- C12.R10 a decoder context's buffer is memory of its own lifetime ----
+
+// Strings, json.Numbers and keys decoded in buffer mode are views of the RuntimeContext's Buf. The Buf of every
+// context the decoder package sets up (the nested context of a string-wrapped value, a path evaluation) therefore
+// has to be memory that lives exactly as long as the values decoded from it: made in the same call, or the Buf of
+// the enclosing context (or a token of it). A scratch buffer kept in a longer-lived object (a Stream field) and
+// reused for the next value overwrites the strings the previous value stored.
+func c12r10(rc *core.RC) {
+	p := rc.P
+	of := core.NewOriginFinder(p)
+	n := 0
+	for _, fn := range p.ModuleFuncs() {
+		if fn.Pkg == nil || fn.Pkg.Pkg.Path() != core.PkgPaths["decoder"] {
+			continue
+		}
+		k := 0
+		for _, b := range fn.Blocks {
+			for _, ins := range b.Instrs {
+				st, ok := ins.(*ssa.Store)
+				if !ok {
+					continue
+				}
+				fa, ok := st.Addr.(*ssa.FieldAddr)
+				if !ok || core.FieldNameOf(fa) != "RuntimeContext.Buf" {
+					continue
+				}
+				k++
+				n++
+				rc.Touch(core.SSAName(fn))
+				key := fmt.Sprintf("%s/ctx.Buf#%d memory-of-the-context's-lifetime", core.SSAName(fn), k)
+				var bad []string
+				for _, o := range of.Origins(st.Val) {
+					switch o.Kind {
+					case "make", "alloc", "const", "nil":
+						continue
+					case "field":
+						if o.Name == "RuntimeContext.Buf" {
+							continue
+						}
+					}
+					bad = append(bad, o.String())
+				}
+				rc.Check(len(bad) == 0, key, core.SSAPos(st), "the buffer given to a decoder context is made in this call or is (a token of) the enclosing context's buffer%s", map[bool]string{true: "", false: "; it can derive from " + strings.Join(bad, ", ") + ": memory that outlives the call and is reused overwrites the strings decoded from it earlier"}[len(bad) == 0])
+			}
+		}
+	}
+	if n < 2 {
+		rc.Unknown("decoder/context-buffers", token.NoPos, "found %d stores to RuntimeContext.Buf in the decoder package", n)
+	}
+}
